@@ -3,6 +3,7 @@ CRATES["adt"] = {
     "dir": "file-formats/world-data/wow-adt",
     "attach": [
         ("src/builder/serializer.rs", "adt/serializer.rs", "verif_kani_serializer", ""),
+        ("src/root_parser.rs", "adt/root_parser.rs", "verif_kani_root_parser", "pub(crate)"),
     ],
 }
 
@@ -41,14 +42,72 @@ H("C14", "adt", _A, "quick", "C14.d fixed-size records: write_le(read_le(b)) == 
   "record bytes fully symbolic (36/64/16/28/16/12/24/16/16/36/64/8 bytes)", "one record", stubs=_ST)
 _mcnk = ["builder::serializer::write_mcnk_chunk", "builder::serializer::write_chunk", "chunks::mcnk::chunk::McnkChunk::parse_with_offset_and_size",
          "chunks::mcnk::header::McnkHeader::{read_le,write_le,has_*}"]
-H("C14", "adt", _A, "quick", "C14.e MCNK without sub-chunks: header content survives write->parse, stale offsets/sizes/counts are cleared, nothing is invented",
+IMG = "harness environment: in-memory file image (Read+Write+Seek over nested [u8; 64] pages so that CBMC tracks every byte separately)"
+_ST2 = [FMT, TID, IMG]
+H("C14", "adt", _A, "thorough", "C14.e MCNK without sub-chunks: header content survives write->parse, stale offsets/sizes/counts are cleared, nothing is invented, parse->write reproduces the bytes",
   ["c14e_mcnk_bare_header"], _mcnk,
-  "all 136 header bytes' worth of fields symbolic (flags, indices, counts, stale offsets and sizes, holes, position, ...) except unused/_padding = 0",
-  "MCNK at file offset 16, no sub-chunks", assumes=["header fields `unused` and `_padding` are zero (padding, not content)"], stubs=_ST)
-H("C14", "adt", _A, "quick", "C14.e MCNK with MCLY + MCSE: counts == list lengths, header offsets point at chunks of the named type, sub-chunks tile the payload, content survives, parse->write reproduces the bytes",
+  "all MCNK header fields symbolic (flags, indices, counts, stale offsets and sizes, holes, position, ...) except unused/_padding = 0",
+  "MCNK at file offset 16, no sub-chunks", assumes=["header fields `unused` and `_padding` are zero (padding, not content)"], stubs=_ST2, timeout=2400)
+H("C14", "adt", _A, "thorough", "C14.e MCNK with MCLY + MCSE: counts == list lengths, header offsets point at chunks of the named type, sub-chunks tile the payload, content survives, parse->write reproduces the bytes",
   ["c14e_mcnk_layers_emitters"], _mcnk,
   "header symbolic as above; 2 texture layers and 1 sound emitter with symbolic fields", "MCNK at file offset 16; 2 layers, 1 emitter",
-  assumes=["header fields `unused` and `_padding` are zero"], stubs=_ST)
+  assumes=["header fields `unused` and `_padding` are zero"], stubs=_ST2, timeout=2400)
+H("C14", "adt", _A, "thorough", "C14.e MCNK with MCRF: references survive write->parse when the header counts describe the list",
+  ["c14e_mcnk_refs"], _mcnk, "header symbolic; 2 references symbolic; n_doodad_refs in 0..=2 symbolic, n_map_obj_refs = 2 - n_doodad_refs",
+  "MCNK at file offset 16; 2 references",
+  assumes=["n_doodad_refs + n_map_obj_refs == number of references (McrfChunk::validate_counts; known finding KF-C14-mcrf-counts otherwise)",
+           "phantom MCRD/MCRW copies returned by the parser are not compared (known finding KF-C14-mcrf-phantom)"], stubs=_ST2, timeout=2400)
+H("C14", "adt", _A, "thorough", "C14.e MCNK with MCVT + MCNR: packed height/normal offsets point at MCVT/MCNR, all 145 heights and normals survive",
+  ["c14e_mcnk_heights_normals"], _mcnk, "header symbolic; 145 heights (f32 bit patterns) and 145 normals symbolic; probe vertex index symbolic",
+  "MCNK at file offset 16; 145 vertices (format constant)",
+  assumes=["MCNK flag 0x200 (high-res holes re-purpose the offset field, MoP 5.3+) is clear", "MCNR padding is the 13 zero bytes of the format"], stubs=_ST2, timeout=2400)
+H("C14", "adt", _A, "thorough", "C14.e MCNK with MCCV: ofs_mccv points at MCCV, all 145 colours survive (BGRA order)",
+  ["c14e_mcnk_vertex_colors"], _mcnk, "header symbolic; 145 BGRA colours symbolic; probe index symbolic", "145 vertices",
+  assumes=["MCNK flag 0x40 (has_mccv) set by the caller (known finding KF-C14-mccv-flag otherwise)"], stubs=_ST2, timeout=2400)
+H("C14", "adt", _A, "thorough", "C14.e MCNK with MCLQ: ofs_liquid points at MCLQ, size_liquid == 8 + payload, 81 vertices and 64 tile flags survive",
+  ["c14e_mcnk_liquid"], _mcnk + ["chunks::mcnk::mclq::MclqChunk::{read_options,write_options}"],
+  "header symbolic; height range, 81 liquid vertices, 64 tile flags symbolic; probe indices symbolic", "81 vertices (format constant); 8 bytes follow the MCNK in the file",
+  assumes=["min/max height finite, within +-10000 and ordered (MclqChunk::has_valid_heights)", "MCNK liquid-type flags 0x08/0x10/0x20 clear",
+           "at least 8 bytes follow the MCLQ payload in the file (known finding KF-C14-mclq-size otherwise)"], stubs=_ST2, timeout=2400)
+H("C14", "adt", _A, "thorough", "C14.e witness: MCRF grows on parse->write", ["c14e_mcnk_refs_rewrite_grows_witness"], _mcnk,
+  "concrete: one MCNK with MCRF [1, 2], n_doodad_refs = 2", "one input", stubs=_ST2, timeout=2400, expect="witness:KF-C14-mcrf-phantom")
+H("C14", "adt", _A, "thorough", "C14.e witness: MCRF lost when header counts are 0", ["c14e_mcnk_refs_zero_counts_witness"], _mcnk,
+  "concrete: one MCNK with MCRF [1, 2], header counts 0", "one input", stubs=_ST2, timeout=2400, expect="witness:KF-C14-mcrf-counts")
+H("C14", "adt", _A, "thorough", "C14.e witness: MCDD written but never parsed", ["c14e_mcnk_mcdd_dropped_witness"], _mcnk,
+  "concrete: one MCNK with MCDD = 64 x 0xFF", "one input", stubs=_ST2, timeout=2400, expect="witness:KF-C14-mcnk-tail-dropped")
+H("C14", "adt", _A, "thorough", "C14.e witness: MCCV lost without MCNK flag 0x40", ["c14e_mcnk_vertex_colors_flag_witness"], _mcnk,
+  "concrete: one MCNK with default MCCV, flags 0", "one input", stubs=_ST2, timeout=2400, expect="witness:KF-C14-mccv-flag")
+H("C14", "adt", _A, "thorough", "C14.e witness: MCLQ last in file cannot be parsed", ["c14e_mcnk_liquid_last_witness"], _mcnk,
+  "concrete: one MCNK whose only sub-chunk is an MCLQ (81 vertices), nothing behind it", "one input", stubs=_ST2, timeout=2400,
+  expect="witness:KF-C14-mclq-size")
+_mh2o = ["builder::serializer::write_mh2o_chunk", "root_parser::parse_mh2o_chunk", "chunks::mh2o::header::Mh2oHeader::{has_liquid,has_attributes}",
+         "chunks::mh2o::Mh2oChunk::has_any_liquid"]
+H("C14", "adt", _A, "thorough", "C14.f MH2O with one liquid layer: declared size == bytes written, header offsets relative to chunk data, instance/attributes survive, no water on other chunks",
+  ["c14f_mh2o_layer_attrs_chunk0", "c14f_mh2o_layer_noattrs_chunk2"], _mh2o,
+  "one instance with all fields symbolic (stale offsets included), attributes symbolic, stale MH2O header symbolic; probe entry index symbolic over 256",
+  "water on terrain chunk 0 (with attributes) / chunk 2 (without); one layer, no vertex data, no exists bitmap", stubs=_ST2, timeout=2400)
+_R = "verif_kani_root_parser"
+H("C14", "adt", _R, "quick", "C14.f MH2O with 256 empty headers parses as 'no water'", ["c14f_mh2o_all_dry_is_none"],
+  ["root_parser::parse_mh2o_chunk"], "concrete: 3072 zero bytes", "one input", stubs=_ST)
+H("C14", "adt", _R, "quick", "canary", ["c14_root_parser_canary"], ["root_parser::parse_mh2o_chunk"], "vacuity twin", "-", expect="canary", stubs=_ST)
+RS = "std::hash::RandomState::new -> fixed SipHash keys (1,2) (environment model; the chunk-discovery HashMap only sees concrete chunk ids)"
+_ST3 = [FMT, TID, IMG, RS]
+_file = ["builder::adt_builder::AdtBuilder::{new,with_version,add_texture,add_model,add_wmo,add_doodad_placement,add_wmo_placement,add_mcnk_chunk,add_flight_bounds,build}",
+         "builder::validation::*", "builder::serializer::serialize_to_writer", "builder::serializer::write_mcnk_chunk", "builder::serializer::calculate_mhdr_offsets",
+         "builder::serializer::calculate_mcin_entries", "chunk_discovery::discover_chunks", "version::AdtVersion::detect_from_chunks",
+         "root_parser::parse_root_adt", "root_parser::parse_mcnk_chunks", "chunks::strings::parse_null_terminated_strings"]
+H("C14", "adt", _A, "thorough", "C14.g whole tile through builder -> serialize_to_writer -> discover_chunks -> parse_root_adt: framing tiles the file, MHDR/MCIN entries point at chunks of the named type, version and content survive",
+  ["c14g_file_vanilla_early", "c14g_file_tbc_flight_bounds"], _file,
+  "1 texture / 1 model / 1 WMO (concrete names), one doodad and one WMO placement with all fields symbolic, one terrain chunk with symbolic flags/indices/area/holes/position, flight bounds (18 x i16) symbolic for TBC",
+  "one name per list, one placement per list, one MCNK without sub-chunks; versions VanillaEarly and TBC(+MFBO)",
+  assumes=["doodad scale != 0 (builder precondition)", "name_id 0 (the only valid reference)"], stubs=_ST3, timeout=2400)
+H("C14", "adt", _A, "thorough", "C14.g whole tile, WotLK: generated MTXF present and announced by MHDR, version detected, content other than texture flags survives",
+  ["c14g_file_wotlk"], _file, "as above, terrain chunk header zero", "as above; version WotLK",
+  assumes=["texture flags not compared (known finding KF-C14-mtxf-unbounded)"], stubs=_ST3, timeout=2400)
+H("C14", "adt", _A, "thorough", "C14.g witness: Vanilla 1.9+ tile detected as another version", ["c14g_version_vanilla_late_witness"], _file,
+  "concrete tile built for VanillaLate", "one input", stubs=_ST3, timeout=2400, expect="witness:KF-C14-version-detect")
+H("C14", "adt", _A, "thorough", "C14.g witness: MTXF read past the end of its chunk", ["c14g_file_wotlk_mtxf_witness"], _file,
+  "concrete tile built for WotLK with 1 texture", "one input", stubs=_ST3, timeout=2400, expect="witness:KF-C14-mtxf-unbounded")
 H("C14", "adt", _A, "quick", "canary", ["c14_serializer_canary"], ["builder::serializer::calculate_mhdr_offsets"], "vacuity twin", "-",
   expect="canary", stubs=_ST)
 
